@@ -256,6 +256,35 @@ def dec_str(w: str) -> str:
     return "" if body == "" else "".join(chr(int(h, 16)) for h in body.split("."))
 
 
+# Payload values travel through the line protocol as integer codes.  The small codes stand for the falsy / odd objects that a
+# container must treat like any other value (`if value:` / `x.get(k) is None` shortcuts are the classic way to lose them).
+FALSY = {0: None, 1: 0, 2: "", 3: (), 4: False, 5: 0.0}
+
+
+def dec_val(code: int):
+    return FALSY.get(code, code)
+
+
+def enc_val(obj):
+    for c, t in FALSY.items():
+        if type(obj) is type(t) and obj == t:
+            return c
+    return obj
+
+
+class FalsyInt(int):
+    """an int that is falsy whatever its value: a result a pool must hand over like any other (`if result:` loses it)"""
+
+    def __bool__(self):
+        return False
+
+
+def pool_f(x, a=2):
+    """the functor used with the pools: every third result is a falsy object (still an int, so the harness can invert it)"""
+    y = x * a + 1
+    return FalsyInt(y) if y % 3 == 0 else y
+
+
 def err_name(e: BaseException) -> str:
     return type(e).__name__
 
